@@ -95,6 +95,13 @@ def run(chk, binary, count, max_objects, model=True):
             continue
         if "panic_view" in r:
             chk.violation("panic_view: " + r["panic_view"], {"case": r})
+        if "panic_mode_specific" in r:
+            chk.violation("the mode-specific gradual performance calculator panicked: " + r["panic_mode_specific"],
+                          {"map": r["map"], "settings": r["settings"], "states": r["states"]})
+        if r.get("mode_specific_eq") is False:
+            chk.violation("next / next / last of the mode-specific gradual performance calculator differ from the "
+                          "mode-agnostic GradualPerformance on the same states",
+                          {"map": r["map"], "settings": r["settings"], "states": r["states"][:3], "mode": r["mode"]})
             continue
         rows.append(r)
     for r in rows:
